@@ -270,7 +270,10 @@ def injection_sweep(part: int = 0, parts: int = 1, tier: str = "quick", known: l
             if not probs:
                 continue
             if classes:
-                hits.update(e["id"] for e in classes)
+                # a failure is credited to a finding (KNOWN-FINDING is printed) only when it is the sole class that
+                # matches; with several matching classes the failure is excused but proves none of them live
+                if len(classes) == 1:
+                    hits.add(classes[0]["id"])
                 continue
             wit.append({"what": f"payload {pl!r} at slot '{kind}' breaks the generated code or is not reproduced faithfully", "input": {"slot": sid, "kind": kind, "payload": pl, "meta": meta}, "observed": probs[:4], "reproduced": True, "replay_func": "vlib.inject:replay"})
     return result("violated" if (wit or hits) else "holds", f"{n} (slot, payload) injections through the real generator, {len(wit)} unlisted problems", queries=n, witnesses=wit[:6], known_hits=sorted(hits), cases=[f"slot:{slots[s]['kind']}" for s in sids], bounds={"slots": len(sids), "payloads": len(PAYLOADS)}, stubs=["replay oracle: concrete runs of the real generator + CPython tokenizer/ast + tomllib; not a solver verdict"], samples=[{"slot": slots[sids[0]]["kind"], "payload": PAYLOADS[4]}] if sids else [])
